@@ -139,6 +139,7 @@ func (kr *kindRunner[C]) receiver(open [][]int) (*receiver[C], error) {
 					r.mu.Lock()
 					r.disp = append(r.disp, Disp{C: cb, X: fromBytes(msg.Payload)})
 					r.mu.Unlock()
+					netsim.Scribble(msg.Payload) // the callback owns the message: modify it before returning
 				}); err != nil {
 					return
 				}
@@ -150,6 +151,7 @@ func (kr *kindRunner[C]) receiver(open [][]int) (*receiver[C], error) {
 					r.mu.Lock()
 					r.disp = append(r.disp, Disp{C: cb, X: fromBytes(msg.Payload)})
 					r.mu.Unlock()
+					netsim.Scribble(msg.Payload)
 					return copy(resp, "ok")
 				}); err != nil {
 					return
